@@ -92,6 +92,17 @@ pub fn at(f: &'static str) {
     *CUR_GLOBAL.lock().unwrap_or_else(|e| e.into_inner()) = f;
 }
 
+/// which observation of `same` / `same_probed` is running (for the watchdog)
+static PHASE: std::sync::Mutex<&'static str> = std::sync::Mutex::new("");
+
+pub fn phase(p: &'static str) {
+    *PHASE.lock().unwrap_or_else(|e| e.into_inner()) = p;
+}
+
+pub fn phase_global() -> &'static str {
+    *PHASE.lock().unwrap_or_else(|e| e.into_inner())
+}
+
 pub fn cur_global() -> &'static str {
     *CUR_GLOBAL.lock().unwrap_or_else(|e| e.into_inner())
 }
@@ -971,6 +982,13 @@ pub fn known_repr(name: &str) -> Result<(), String> {
 /// The observable digraph equals the model: order, vertices() and arcs()
 /// each exactly once in ascending order, and the arc weights.
 pub fn same<D: Dg>(d: &D, g: &G, what: &str) -> R {
+    let r = same_inner(d, g, what);
+    phase("");
+    r
+}
+
+fn same_inner<D: Dg>(d: &D, g: &G, what: &str) -> R {
+    phase("Order::order");
     let order = d.order();
     if order != g.order() {
         return Err(mk_fail(
@@ -979,6 +997,7 @@ pub fn same<D: Dg>(d: &D, g: &G, what: &str) -> R {
             format!("{order}"),
         ));
     }
+    phase("Vertices::vertices");
     let vs: Vec<usize> = d.vertices().take(g.order() + 8).collect();
     if vs != g.vlist() {
         return Err(mk_fail(
@@ -987,6 +1006,7 @@ pub fn same<D: Dg>(d: &D, g: &G, what: &str) -> R {
             format!("{vs:?}"),
         ));
     }
+    phase("Arcs::arcs");
     let arcs: Vec<(usize, usize)> = d.arcs().take(g.size() + 8).collect();
     if arcs != g.arc_list() {
         return Err(mk_fail(
@@ -995,6 +1015,7 @@ pub fn same<D: Dg>(d: &D, g: &G, what: &str) -> R {
             format!("{arcs:?}"),
         ));
     }
+    phase("Size::size");
     let size = d.size();
     if size != g.size() {
         return Err(mk_fail(
@@ -1004,6 +1025,7 @@ pub fn same<D: Dg>(d: &D, g: &G, what: &str) -> R {
         ));
     }
     if D::WEIGHTED {
+        phase("ArcsWeighted::arcs_weighted");
         let wa = d.weighted_arcs();
         if wa != g.warc_list() {
             return Err(mk_fail(
